@@ -67,7 +67,14 @@ def _ranking(inst):
         types.Match = stub
         try:
             sc = types.Scope()
-            for c in order:
+            for k, c in enumerate(order):
+                if k and k == inst.get("probe_after"):
+                    # history: the name is resolved once while only some of the overloads are registered (a global initialiser calling
+                    # an imported function before the module's own functions exist); the answer then must not stick
+                    try:
+                        sc.FindFunction(inst.get("call", "h"), argtypes)
+                    except Errors.CompileException:
+                        pass
                 sc.RegisterFunction("h", funs[c])
             try:
                 return ("chosen", sc.FindFunction(inst.get("call", "h"), argtypes).tag)
@@ -333,6 +340,8 @@ def replay(spec):
                 cands[c] = tuple(("scalar", "int") for _ in range(ar))
         ordered = [cands[c] for c in order]
         args = [("scalar", "int")] * nargs
+        if inst.get("probe_after"):
+            return _scope_history(ordered, args, inst["probe_after"])
         if inst.get("call", "h") != "h":
             src = _program(ordered, args).replace("return h(", "return nosuch(")
             got = run_program(src, args)
@@ -350,6 +359,41 @@ def replay(spec):
         want = z3.simplify(O3.match_score(_subst(L, val), _subst(R, val))).as_long()
         return None if got == want else dict(left=_subst(L, val), right=_subst(R, val), match=got, expected=want)
     return None
+
+
+def _real_type(t):
+    from nsl import types
+    comp = {"int": types.Integer, "float": types.Float, "uint": types.UnsignedInteger}[t[1]]()
+    return comp if t[0] == "scalar" else types.VectorType(comp, t[2])
+
+
+def _scope_history(ordered, args, probe_after):
+    """the history of a ranking instance on nsl.types.Scope with real types: register some overloads, resolve, register the rest, resolve"""
+    from nsl import ast, types, Errors
+    sc = types.Scope()
+    funs = []
+    for i, ps in enumerate(ordered):
+        f = types.Function("h", types.Integer(), [ast.Argument(_real_type(t), f"p{j}") for j, t in enumerate(ps)])
+        f.Resolve(sc)
+        funs.append(f)
+    argtypes = [_real_type(t) for t in args]
+    for k, f in enumerate(funs):
+        if k and k == probe_after:
+            try:
+                sc.FindFunction("h", argtypes)
+            except Errors.CompileException:
+                pass
+        sc.RegisterFunction("h", f)
+    want = O3.resolve(ordered, args)
+    try:
+        got = ("ok", funs.index(sc.FindFunction("h", argtypes)))
+    except Errors.CompileException as e:
+        got = ("reject", str(e.message.code))
+    if want[0] == "ok":
+        return None if got == ("ok", want[1]) else dict(overloads=[[O3.spell(t) for t in c] for c in ordered], arguments=[O3.spell(t) for t in args],
+                                                        resolved_once_after=probe_after, expected=want, observed=got)
+    return None if got[0] == "reject" else dict(overloads=[[O3.spell(t) for t in c] for c in ordered], arguments=[O3.spell(t) for t in args],
+                                                resolved_once_after=probe_after, expected=want, observed=got)
 
 
 def run_instance(inst):
@@ -371,6 +415,8 @@ def instances(tier, seed):
     for arities, nargs in shapes:
         for order in itertools.permutations(range(len(arities))):
             out.append(dict(part="ranking", arities=list(arities), nargs=nargs, order=list(order)))
+            for j in range(1, len(arities)):
+                out.append(dict(part="ranking", arities=list(arities), nargs=nargs, order=list(order), probe_after=j))
     out.append(dict(part="ranking", arities=[1], nargs=1, order=[0], call="nosuch"))
     for L in TYPE_SHAPES:
         for R in TYPE_SHAPES:
